@@ -39,6 +39,7 @@ func init() {
 		Run: func(c *Ctx) []core.Ob {
 			obs := c.RCONFrame()
 			obs = append(obs, c.RCONPolarity()...)
+			obs = append(obs, filterObs(c.NoReadAhead(), func(o core.Ob) bool { return o.Key != "scope" || true })...)
 			in := recvPred("net", "RCONConn")
 			obs = append(obs, c.TLGObs(in, in, false)...)
 			return obs
